@@ -319,6 +319,11 @@ class CallMixin:
             return h(self, st, args)
         m = getattr(self, 'b_' + name.replace('.', '_'), None)
         if m is None:
+            if '.' in name:
+                # external library function (itertools, operator, json, boltons, ...): an opaque primitive named after it
+                s2 = st.fork()
+                posb, kwb = self.box_args(s2, args)
+                return self.prim(s2, 'ext!' + name, [sv_ref(posb), sv_ref(kwb)])
             raise Unsupported('builtin %s' % name)
         return m(st, args)
 
@@ -653,7 +658,7 @@ class CallMixin:
             for c in self.repo.mro(ci)[1:]:
                 if name in c.methods:
                     m = c.methods[name]
-                    return self.inline(st, Closure(m.node, m.module, None, name=m.name, selfsv=selfsv, finfo=m, cls=c.name), args)
+                    return self.call(st, SV('func', Closure(m.node, m.module, None, name=m.name, selfsv=selfsv, finfo=m, cls=c.name)), args, module)
             # builtin base (Exception.__init__): sets args
             if name == '__init__':
                 s2 = st.fork()
